@@ -1,6 +1,7 @@
 """E-PROTO, E-ATTR, E-EXIT, E-TABLE, E-OWN and small closed-world structural
 rules (shared mutable state, optional-zero parameters, codec pass-through)."""
 import ast
+import re
 import itertools
 
 from .core import (ftext, closure_text, helper_closure, AnalysisError, dotted, norm, walk_local, const_int,
@@ -680,7 +681,25 @@ def exit_status(repo, col):
         for st in stmts_of(fn.node):
             if not isinstance(st, ast.Try):
                 continue
+            # a lookup with a fallback (`try: return cache[k]` / `except
+            # KeyError:`) runs no operation that could fail: nothing is
+            # swallowed
+            body_calls = [c for b_ in st.body for c in ast.walk(b_)
+                          if isinstance(c, ast.Call)]
+            pure_body = all(
+                isinstance(c.func, ast.Name) and c.func.id in (
+                    "int", "float", "len", "tuple", "str", "getattr", "next",
+                    "iter", "hash") for c in body_calls)
+            lookup_types = {"KeyError", "IndexError", "AttributeError",
+                            "StopIteration", "ValueError", "TypeError"}
             for h in st.handlers:
+                types_ = []
+                if h.type is not None:
+                    types_ = [norm(t_).split(".")[-1] for t_ in (
+                        h.type.elts if isinstance(h.type, ast.Tuple)
+                        else [h.type])]
+                if pure_body and types_ and set(types_) <= lookup_types:
+                    continue
                 n_handlers += 1
                 last = h.body[-1] if h.body else None
                 ok = False
@@ -1045,9 +1064,25 @@ def inplace_ownership(repo, col):
         and norm(r.value.func.value) in tracked_all
         and r.value.args and norm(r.value.args[0]) == out_param
         for r in rets)
+    # positively wrong: a return that casts to another dtype, or hands back
+    # the tracked work array without any cast; a result assembled some other
+    # way (allocated in the output type and filled) is not decided here
+    wrong = []
+    for r in rets:
+        v = r.value
+        if isinstance(v, ast.Call) and isinstance(v.func, ast.Attribute) \
+                and v.func.attr == "astype" and v.args and \
+                norm(v.args[0]) != out_param:
+            wrong.append(r)
+        elif isinstance(v, ast.Name) and v.id in tracked_all:
+            wrong.append(r)
     col.add(rule + ".final-cast", fn, "return %s.astype(output_dtype)" % arr,
-            ok, "" if ok else "the converter does not return the rounded / "
-            "clipped array cast to the output type")
+            ok or not wrong, "" if ok else
+            ("the converter does not return the rounded / clipped array cast "
+             "to the output type" if wrong else "the result is not returned "
+             "as <array>.astype(output dtype): how it gets the output type is "
+             "not followed"), undecided=not ok and not wrong,
+            node=wrong[0] if wrong else None)
 
 
 def copy_keyword_contract(repo, col):
@@ -1184,13 +1219,50 @@ def io_pass_through(repo, col):
             "decoder's output")
     # raw encoder: cast to the little-endian stored dtype dominates tobytes
     for cls in ("RawChunkEncoder", "CompressedSegmentationEncoder"):
-        fn = repo.func("chunk_encoding", cls + ".encode")
-        from .core import nodes_passing, helper_closure
+        fn = repo.func("chunk_encoding", cls + ".encode", inline=True)
+        from .core import nodes_passing, helper_closure, resolve_local_call
+
+        def is_cast(c):
+            return isinstance(c.func, ast.Attribute) and \
+                c.func.attr == "astype" and c.args and \
+                norm(c.args[0]) == "self.dtype"
+
+        def cast_or_equal_nodes(f, depth=0):
+            """Nodes after which the chunk has the stored dtype: the cast, an
+            `if x.dtype != self.dtype:` around the cast (the other arm is
+            the case where nothing needs converting), or a call to a helper
+            every path of which passes such a node."""
+            fcfg = f.cfg()
+            fown = enclosing_stmt_map(f.node)
+            out = []
+            for c in calls_in(f.node):
+                hit = is_cast(c)
+                if not hit and depth < 2:
+                    h = resolve_local_call(f, c)
+                    if h is not None and h is not f:
+                        hn = cast_or_equal_nodes(h, depth + 1)
+                        hcfg = h.cfg()
+                        hit = bool(hn) and hcfg.every_path_passes(
+                            hcfg.entry, hcfg.exit, hn)
+                if hit:
+                    n_ = fcfg.node_of(fown.get(id(c)))
+                    if n_ is not None:
+                        out.append(n_)
+            for st in stmts_of(f.node):
+                if isinstance(st, ast.If) and isinstance(st.test, ast.Compare) \
+                        and len(st.test.ops) == 1 and \
+                        isinstance(st.test.ops[0], ast.NotEq) and \
+                        {norm(st.test.left), norm(st.test.comparators[0])} & \
+                        {"self.dtype"} and all(
+                            norm(x).endswith(".dtype") for x in (
+                                st.test.left, st.test.comparators[0])) and \
+                        any(is_cast(c) for b in st.body for c in calls_in(b)):
+                    n_ = fcfg.node_of(st)
+                    if n_ is not None:
+                        out.append(n_)
+            return out
         cfg = fn.cfg()
-        casts = nodes_passing(
-            fn, lambda c: isinstance(c.func, ast.Attribute)
-            and c.func.attr == "astype" and c.args
-            and norm(c.args[0]) == "self.dtype")
+        casts = cast_or_equal_nodes(fn)
         ok = bool(casts) and cfg.every_path_passes(cfg.entry, cfg.exit, casts)
         col.add(rule, fn, "astype(self.dtype) on every path", ok,
                 "" if ok else "some path serialises the chunk without "
@@ -1237,10 +1309,25 @@ def minishard_encode_before_park(repo, col):
             ds = [d for d in defs.get(nm, []) if d.value is not None]
             if ds and all("data_encoder(" in norm(d.value) for d in ds):
                 ok = True
-        col.add(rule, fn, norm(node)[:70], ok,
+        und = False
+        if not ok:
+            derive = closure_names(fn.node, names_in(val), defs) | \
+                names_in(val)
+            if raw in derive:
+                pass            # the caller's bytes, not encoded: FAIL
+            elif isinstance(val, ast.Constant) or \
+                    ("self." + bufattr) in norm(val) or any(
+                        ("self." + bufattr) in norm(d.value)
+                        for nm in derive for d in defs.get(nm, [])
+                        if d.value is not None):
+                ok = True       # gap filler / a payload parked earlier
+            else:
+                und = True
+        col.add(rule, fn, re.sub(r"__h\d+", "", norm(node))[:70], ok or und,
                 "" if ok else "payload `%s` reaches the shard without passing "
                 "shard_spec.data_encoder: with gzip data encoding the stored "
-                "bytes are not decodable" % norm(val), node=node)
+                "bytes are not decodable" % norm(val), node=node,
+                undecided=und)
 
 
 # ---------------------------------------------------------------------
